@@ -4,6 +4,7 @@ package c02
 import (
 	"fmt"
 	"strings"
+	"time"
 
 	"go.nanomsg.org/mangos/v3"
 	"go.nanomsg.org/mangos/v3/protocol/pair"
@@ -11,6 +12,7 @@ import (
 	"go.nanomsg.org/mangos/v3/protocol/pull"
 	"go.nanomsg.org/mangos/v3/protocol/push"
 	"go.nanomsg.org/mangos/v3/protocol/xpair"
+	"go.nanomsg.org/mangos/v3/protocol/xpair1"
 	"go.nanomsg.org/mangos/v3/protocol/xpull"
 	"go.nanomsg.org/mangos/v3/protocol/xpush"
 	_ "go.nanomsg.org/mangos/v3/transport/inproc"
@@ -45,6 +47,14 @@ func init() {
 			&vexplore.Scenario{Name: fmt.Sprintf("pair1-second-peer-hist-D%d", d), Mode: "hist", Reset: kit.ResetGlobals, Body: func() { pairPeers(pair1.NewSocket, d) },
 				NeedCounters: []string{"second-peer-refused", "reconnect-after-loss"}},
 		)
+		for _, k := range []struct {
+			n string
+			c ctor
+		}{{"pair", pair.NewSocket}, {"xpair", xpair.NewSocket}, {"pair1", pair1.NewSocket}, {"xpair1", xpair1.NewSocket}} {
+			k := k
+			out = append(out, &vexplore.Scenario{Name: fmt.Sprintf("%s-listen+dial-peers-hist-D%d", k.n, d), Mode: "hist", Reset: kit.ResetGlobals, Body: func() { pairPeersDialer(k.c, d) },
+				NeedCounters: []string{"dialed-peer-refused", "inbound-peer-refused", "dialed-takeover", "inbound-takeover"}})
+		}
 		for _, k := range []struct {
 			n string
 			c ctor
@@ -269,6 +279,148 @@ func pairPeers(c ctor, depth int) {
 		return evs
 	}
 	kit.Hist(depth, events, func() {})
+	kit.Must("Close", func() { _ = s.Close() })
+}
+
+// pairPeersDialer: the socket listens and also keeps a background dialer whose connections
+// always succeed at the transport level.  Whatever the history of inbound connections, drops,
+// traffic and time, at most one peer is attached, attempts made meanwhile (inbound or dialed) are
+// refused without disturbing the conversation, and once the peer has gone the next attempt -
+// whichever side makes it - is accepted and carries traffic.
+func pairPeersDialer(c ctor, depth int) {
+	s, err := c()
+	must(err, "NewSocket")
+	lep := vt.Get("pairl2")
+	dep := vt.Get("paird2")
+	dep.Script(vt.DialOK)
+	must(s.SetOption(mangos.OptionReconnectTime, 100*time.Millisecond), "ReconnectTime")
+	must(s.SetOption(mangos.OptionMaxReconnectTime, 100*time.Millisecond), "MaxReconnectTime")
+	must(s.Listen("vt://pairl2"), "Listen")
+	startDialer := kit.ChooseFree(2) == 0 // dialer from the start, or started by an event
+	dialing := false
+	dial := func() {
+		must(s.DialOptions("vt://paird2", map[string]interface{}{mangos.OptionDialAsynch: true}), "Dial")
+		dialing = true
+	}
+	var hdr []byte
+	raw := false
+	if v, e := s.GetOption(mangos.OptionRaw); e == nil {
+		raw, _ = v.(bool)
+	}
+	if s.Info().Self == mangos.ProtoPair1 {
+		hdr = []byte{0, 0, 0, 0}
+	}
+	var cur *vt.Pipe
+	curSeen, nsend := 0, 0
+	alive := func() []*vt.Pipe {
+		var l []*vt.Pipe
+		for _, ep := range []*vt.Endpoint{lep, dep} {
+			for i := 0; i < ep.NumPipes(); i++ {
+				if p := ep.PipeAt(i); p.Alive() {
+					l = append(l, p)
+				}
+			}
+		}
+		return l
+	}
+	isDialed := func(p *vt.Pipe) bool {
+		for i := 0; i < dep.NumPipes(); i++ {
+			if dep.PipeAt(i) == p {
+				return true
+			}
+		}
+		return false
+	}
+	// settle: let the dialer make its attempts, then look at who is attached.
+	settle := func() {
+		kit.Quiesce()
+		nd := dep.NumDials()
+		kit.Sleep(350 * time.Millisecond)
+		kit.Quiesce()
+		l := alive()
+		if len(l) > 1 {
+			kit.Failf("two-peers-attached", "%d connections are open at the same time", len(l))
+		}
+		if cur != nil && cur.Alive() {
+			if dialing && !isDialed(cur) {
+				if dep.NumDials() == nd {
+					kit.Failf("dialer-gave-up", "a peer is attached and the dialer stopped making attempts (%d so far)", nd)
+				}
+				kit.Count("dialed-peer-refused")
+			}
+			return
+		}
+		if len(l) == 0 {
+			if dialing {
+				kit.Failf("no-peer-after-first-gone", "no peer is attached, the dialer can connect, but 350ms (ReconnectTime 100ms) later nothing is attached; attempts so far: %d", dep.NumDials())
+			}
+			cur = nil
+			return
+		}
+		if cur != nil && isDialed(l[0]) {
+			kit.Count("dialed-takeover")
+		}
+		cur, curSeen = l[0], 0
+	}
+	if startDialer {
+		dial()
+	}
+	settle()
+	events := func() []kit.Event {
+		evs := []kit.Event{{Name: "connect", Run: func() {
+			had := cur != nil && cur.Alive()
+			p := lep.Connect()
+			kit.Quiesce()
+			if had {
+				if !p.ClosedByMangos() {
+					kit.Failf("second-peer-not-refused", "an inbound connection was accepted while a peer is attached")
+				}
+				kit.Count("inbound-peer-refused")
+			} else if len(alive()) == 1 && alive()[0] == p {
+				kit.Count("inbound-takeover")
+			}
+		}}}
+		if !dialing {
+			evs = append(evs, kit.Event{Name: "start-dialer", Run: dial})
+		}
+		if cur != nil && cur.Alive() {
+			evs = append(evs, kit.Event{Name: "send", Run: func() {
+				nsend++
+				msg := fmt.Sprintf("m%d", nsend)
+				cl := kit.Start("Send", func() (interface{}, error) {
+					if raw {
+						m := mangos.NewMessage(8)
+						m.Header = append(m.Header, hdr...)
+						m.Body = append(m.Body, msg...)
+						return nil, s.SendMsg(m)
+					}
+					return nil, s.Send([]byte(msg))
+				})
+				kit.Quiesce()
+				if !cl.Done() || cl.Err != nil {
+					kit.Failf("send-stuck", "Send done=%v %s with an attached peer", cl.Done(), kit.ErrName(cl.Err))
+				}
+				l := cur.SentLog()
+				if len(l) != curSeen+1 || body(l[curSeen]) != msg {
+					kit.Failf("conversation-disturbed", "peer has %d messages, want %d ending in %q", len(l), curSeen+1, msg)
+				}
+				curSeen++
+			}})
+			evs = append(evs, kit.Event{Name: "peer-sends", Run: func() {
+				nsend++
+				msg := fmt.Sprintf("p%d", nsend)
+				cur.Deliver(append(append([]byte{}, hdr...), msg...))
+				cl := kit.Start("Recv", func() (interface{}, error) { b, err := s.Recv(); return string(b), err })
+				kit.Quiesce()
+				if !cl.Done() || cl.Err != nil || cl.Val.(string) != msg {
+					kit.Failf("conversation-disturbed", "Recv done=%v %s %q, want %q", cl.Done(), kit.ErrName(cl.Err), cl.Val, msg)
+				}
+			}})
+			evs = append(evs, kit.Event{Name: "drop", Run: func() { cur.DropNow() }})
+		}
+		return evs
+	}
+	kit.Hist(depth, events, settle)
 	kit.Must("Close", func() { _ = s.Close() })
 }
 
